@@ -15,7 +15,7 @@ class C02(StdCheck):
                   "imminent check, parent recovery) the model's requests satisfy the executable specification of the property "
                   "(immediate request exactly on hard events, nothing while suppressed or pending, remembered state, release exactly "
                   "one iff the state differs, never two); the model is tied to the code by running the real functions on all operation "
-                  "sequences of length 4 (5 thorough) over a 10-symbol alphabet x kind x max 1..2 x volatile, plus seeded random "
+                  "sequences of length 4 (5 thorough) over an 11-symbol alphabet x kind x max 1..2 x volatile, plus seeded random "
                   "interleavings (max 1..4, flapping, two downtimes, ack expiry, timer path via the pump); the same specification "
                   "predicate is evaluated on the implementation's own trace")
     level_note = ("Trusted: Lean kernel (+ propext, Classical.choice, Quot.sound), harness/driver; the environment facts (IsInDowntime, "
@@ -27,7 +27,7 @@ class C02(StdCheck):
         "the harness recomputes 'a parent recovered since the last result' from public getters with the same formula as the code's lambda",
     ]
     assumptions = ["integer timestamps", "objects are active; enable_active_checks and check_interval have their defaults"]
-    rule = ("exhaustive: every sequence of 4 (thorough: 5) operations over {OK, CRITICAL, WARNING results, downtime add/remove, acknowledge, "
+    rule = ("exhaustive: every sequence of 4 (thorough: 5) operations over {OK, CRITICAL, WARNING results, fixed downtime add/remove, flexible downtime (triggered by the next non-OK result), acknowledge, "
             "parent down/up, handler after 400 s, handler now} after an initial OK, followed by a fixed tail that ends all suppression reasons, "
             "lets the object settle and runs the handler directly and through the registered timer; x host/service x max 1..2 x volatile; plus "
             "seeded random interleavings of all ten operation kinds (6000 / 60000 cases of up to 30 / 60 operations). evaluations = results + "
